@@ -29,7 +29,7 @@ ASSUMPTIONS = [
     "cases whose reference pipeline itself raises (e.g. variance normalisation of a single frame, deltas of an empty matrix) are outside the domain and discarded",
     "Kaldi wave tables need >= 1 sample; Kaldi stores a 0-row matrix as 0x0, so only the row count is compared there",
     "torch tool: STFT configurations with a filter that has no DFT bin are discarded (the torch module rejects empty filters by design)",
-    "--min-duration values are generated strictly between representable durations (an utterance lasting exactly the minimum is a float-comparison boundary the statement does not settle)",
+    "--min-duration values are either strictly between representable durations or exactly representable in binary (0.25 s, 0.125 s at 1-2 kHz), where an utterance lasting exactly the minimum must be kept ('min duration of segments to process')",
     "multi-channel input always comes with an explicit --channel (the default for multi-channel input differs between the tools and is not part of the statement)",
 ]
 
@@ -168,6 +168,10 @@ def _uid(case, i):
 def _samples(u, rate_unused=None):
     rng = np.random.Generator(np.random.PCG64(u["seed"]))
     amp = u.get("amp", 3000)
+    if u.get("dc"):
+        # float samples with a large offset relative to their spread (e.g. an uncalibrated sensor): the
+        # features before post-processing then need more than single precision
+        return u["dc"] + rng.standard_normal(size=(u["channels"], u["n"]))
     return rng.integers(-amp, amp + 1, size=(u["channels"], u["n"])).astype(np.int16)
 
 
@@ -323,16 +327,20 @@ def _torch_inputs(case):
     for i, u in enumerate(case["utts"]):
         s = _samples(u)
         kind = u["container"]
-        if kind == "wav" or (u["channels"] == 1 and case["channel"] == -1 and u.get("flat", True)):
-            arr, sel = s[0], s[0]
-        else:
-            arr = s
-            sel = s[case["channel"] if case["channel"] != -1 else 0]
+        flat = kind == "wav" or (u["channels"] == 1 and case["channel"] == -1 and u.get("flat", True))
+        arr = s[0] if flat else s
         if kind != "wav":
-            arr = arr.astype({"i16": np.int16, "f32": np.float32, "f64": np.float64}[u.get("dtype", "i16")])
+            dt = u.get("dtype", "i16")
+            if u.get("dc") and dt == "i16":
+                dt = "f64"
+            arr = arr.astype({"i16": np.int16, "f32": np.float32, "f64": np.float64}[dt])
             if u.get("fortran") and arr.ndim == 2:
                 arr = np.asfortranarray(arr)  # a channels-first array stored in column-major order
-        out[_uid(case, i)] = (kind, arr, sel)
+        else:
+            arr = np.rint(arr).astype(np.int16)
+        # the reference pipeline starts from the values as stored
+        sel = arr if arr.ndim == 1 else arr[case["channel"] if case["channel"] != -1 else 0]
+        out[_uid(case, i)] = (kind, arr, np.asarray(sel, dtype=np.float64))
     return out
 
 
@@ -501,9 +509,17 @@ def _kaldi_cases(draw):
         utts.append(u)
     channel = -1 if maxch == 1 else draw(st.integers(0, maxch - 1))
     syn = draw(st.sampled_from(["inline", "json", "yaml"]))
+    min_dur = draw(st.sampled_from([0, 0, 0, 0.0042, 0.0203, 0.25, 0.125]))
+    if min_dur in (0.25, 0.125):
+        # durations that are exact in binary: an utterance lasting exactly the minimum is not "shorter than" it
+        utts[0]["n"] = int(rate * min_dur)
+        if len(utts) > 1:
+            utts[1]["n"] = int(rate * min_dur) - 1
+        for u in utts[2:]:
+            u["n"] = int(rate * min_dur) + draw(st.integers(1, 40))
     return {
         "tool": "kaldi", "rate": rate, "comp": comp, "pre": draw(_pre_st), "post": draw(_post_st), "utts": utts,
-        "channel": channel, "min_duration": draw(st.sampled_from([0, 0, 0, 0.0042, 0.0203])),
+        "channel": channel, "min_duration": min_dur,
         "syntax": syn, "other_syntax": draw(st.sampled_from([None, None, "inline", "json", "yaml"])),
         "alias_key": draw(st.sampled_from(["alias", "name"])), "seed": draw(st.one_of(st.none(), st.integers(0, 1000))),
         "ids": draw(st.integers(0, 2)),
@@ -526,6 +542,8 @@ def _torch_cases(draw):
              "seed": draw(st.integers(0, 2 ** 31 - 1)), "amp": draw(st.sampled_from([3000, 30000, 10])),
              "container": draw(st.sampled_from(conts)), "dtype": draw(st.sampled_from(["i16", "f32", "f64"])),
              "flat": draw(st.booleans()), "fortran": draw(st.sampled_from([False, False, True]))}
+        if draw(st.sampled_from([False, False, False, True])) and u["container"] != "wav":
+            u["dc"] = draw(st.sampled_from([2e4, -5e3, 1e5]))
         if u["container"] == "wav":
             u["n"] = max(u["n"], 1)
         utts.append(u)
